@@ -277,6 +277,7 @@ func finish(o *corr.Out, sc *scenario) {
 		return
 	}
 	wireOracle(o, sc)
+	deliveryOracleFor(o, sc, "C02:isolation")
 	left := sc.w.Cleanup()
 	if len(left) > 0 {
 		o.Oracle("C12:no-goroutine-left", sc.request(), strings.Join(left, " | "))
@@ -458,8 +459,49 @@ func probe(o *corr.Out, sc *scenario, oracle string, needHandlersDone bool) {
 	}
 }
 
+// pumpRandom drives the manual transport choosing among the enabled steps at random (recorded).
+func pumpRandom(sc *scenario, r interface{ Intn(int) int }) {
+	for i := 0; i < 3000; i++ {
+		a, b := sc.w.A.Status(), sc.w.B.Status()
+		var en []string
+		if a.WriteParked {
+			en = append(en, "ack!A")
+		}
+		if b.WriteParked {
+			en = append(en, "ack!B")
+		}
+		if a.Inbound > 0 {
+			en = append(en, "del!A!-1")
+		}
+		if b.Inbound > 0 {
+			en = append(en, "del!B!-1")
+		}
+		if len(en) == 0 {
+			return
+		}
+		sc.do(en[r.Intn(len(en))])
+	}
+}
+
+// famUpload: a unary call with a multi-frame request that the server ends (error or response)
+// while the client is still uploading.
+func famUpload(o *corr.Out, n int) {
+	r := o.Rand
+	for it := 0; it < n; it++ {
+		cfg := Config{Soft: r.Intn(2) == 0, WBuf: []int{0, 1, 64}[r.Intn(3)], Split: []int{0, 1000, 7}[r.Intn(2)]}
+		sc := &scenario{cfg: cfg, class: "upload"}
+		sc.do("flow!0")
+		prog := []string{"e3", "x", "s1:1.x", "r1.e4"}[r.Intn(4)]
+		sc.do(fmt.Sprintf("inv!u1!1!%s!%d!1", prog, []int{70000, 140000, 300}[r.Intn(3)]))
+		pumpRandom(sc, r)
+		probe(o, sc, "C06:probe-completes", true)
+		finish(o, sc)
+	}
+}
+
 func famProbe(o *corr.Out, n int) {
 	r := o.Rand
+	famUpload(o, n/3+1)
 	type cs struct {
 		sends   int
 		cls     bool
@@ -515,10 +557,32 @@ func famProbe(o *corr.Out, n int) {
 
 func famCancel(o *corr.Out, n int) {
 	r := o.Rand
-	for it := -1; it < n; it++ {
-		cfg := Config{Soft: r.Intn(2) == 0}
+	// every subset of at most 3 of the 5 in-flight kinds, in a random order, x stalled x soft
+	var subsets [][]int
+	for m := 1; m < 32; m++ {
+		var ks []int
+		for k := 0; k < 5; k++ {
+			if m&(1<<uint(k)) != 0 {
+				ks = append(ks, k)
+			}
+		}
+		if len(ks) <= 3 {
+			subsets = append(subsets, ks)
+		}
+	}
+	famWaitingInvoke(o)
+	total := len(subsets) * 4
+	if n < total && !o.Thorough {
+		total = n * 2
+	}
+	for it := -1; it < total; it++ {
+		gi := it
+		if it >= 0 && total < len(subsets)*4 {
+			gi = r.Intn(len(subsets) * 4)
+		}
+		cfg := Config{Soft: gi%2 == 0}
 		sc := &scenario{cfg: cfg, class: "cancel"}
-		stalled := r.Intn(2) == 0
+		stalled := (gi/2)%2 == 0
 		prog := []string{"w.x", "rA.x", "r1.w.x", "s1:5.w.x", "r1.s1:5.rA.x"}[r.Intn(5)]
 		if it == -1 {
 			// replay of Props.C04.cancel_hang_counterexample on the implementation: hard cancel with a send
@@ -554,8 +618,9 @@ func famCancel(o *corr.Out, n int) {
 		}
 		// put a random set of operations in flight
 		inflight := 0
-		kinds := r.Perm(5)
-		for _, k := range kinds[:1+r.Intn(3)] {
+		kinds := append([]int(nil), subsets[(gi/4+len(subsets))%len(subsets)]...)
+		r.Shuffle(len(kinds), func(i, j int) { kinds[i], kinds[j] = kinds[j], kinds[i] })
+		for _, k := range kinds {
 			switch k {
 			case 0:
 				sc.do("rcv!r1.0!1")
@@ -597,7 +662,8 @@ func famCancel(o *corr.Out, n int) {
 		}
 		if !cfg.Soft {
 			for _, s := range []string{"s1.0", "s1.1"} {
-				if v, ok := res[s]; ok && contains(before, s) && v != "canceled" && !appClosed {
+				halfClosed := strings.Contains(strings.Join(sc.acts, ";"), "cls!c1") // the application itself closed its send side
+				if v, ok := res[s]; ok && contains(before, s) && v != "canceled" && !appClosed && !halfClosed {
 					o.Oracle("C04:blocked-send-gets-ctx-error", sc.request(), s+"="+v)
 				} else {
 					o.OracleOK("C04:blocked-send-gets-ctx-error")
@@ -623,6 +689,35 @@ func famCancel(o *corr.Out, n int) {
 			o.Oracle("C04:peer-ctx-cancelled", sc.request(), "handler never saw its context cancelled: "+log)
 		} else {
 			o.OracleOK("C04:peer-ctx-cancelled")
+		}
+		finish(o, sc)
+	}
+}
+
+// famWaitingInvoke: soft cancel; RPC 1 is cancelled while its cancel frame is stuck in a stalled
+// transport, RPC 2 is admitted behind it and is itself cancelled while waiting; once the transport
+// drains, the connection must serve a probe (or report itself closed).
+func famWaitingInvoke(o *corr.Out) {
+	for _, prog := range []string{"w.x", "rA.x"} {
+		sc := &scenario{cfg: Config{Soft: true}, class: "cancel-waiting-invoke"}
+		sc.do("new!n1!1!" + prog + "!1")
+		sc.do("fls!f1!1")
+		sc.do("flow!0")
+		sc.do("can!1")
+		sc.do("inv!u2!2!r1.s1:1.x!1!2")
+		ob := sc.do("can!2")
+		if contains(lastPending(ob), "u2") {
+			o.Oracle("C04:cancel-unblocks", sc.request(), "mode=soft invoke waiting for the previous stream did not return on cancel: "+ob)
+		} else {
+			o.OracleOK("C04:cancel-unblocks")
+		}
+		probe(o, sc, "C04:conn-usable-or-closed", false)
+		probe2 := sc.results()["probe"]
+		if probe2 == "" && !strings.HasSuffix(sc.obs[len(sc.obs)-1], "X1]") {
+			o.Oracle("C06:probe-completes", sc.request(), "probe hangs after a cancelled invoke that was waiting for the previous stream; blocked: "+
+				strings.Join(sc.w.LastObs().Census, " | "))
+		} else {
+			o.OracleOK("C06:probe-completes")
 		}
 		finish(o, sc)
 	}
@@ -777,24 +872,31 @@ func famFault(o *corr.Out, n int) {
 	}
 }
 
-// deliveryOracleFor: integrity / order / isolation of whatever was delivered (no completeness claim)
+// deliveryOracleFor: integrity and isolation of whatever was delivered (no order or completeness
+// claim: those are judged by deliveryOracle in the delivery family)
 func deliveryOracleFor(o *corr.Out, sc *scenario, name string) {
 	bad := ""
-	seqs := map[string]int{}
 	for _, ev := range sc.handlerLog() {
 		p := strings.SplitN(ev, ":", 3)
 		if len(p) == 3 && p[1] == "recv" {
 			f := strings.Split(p[2], "/")
-			if len(f) != 4 || "H"+f[0] != p[0] || f[1] != "1" || f[2] != strconv.Itoa(seqs[p[0]]) {
+			if len(f) != 4 || "H"+f[0] != p[0] || f[1] != "1" {
 				bad = "handler " + p[0] + " received " + p[2]
 			}
-			seqs[p[0]]++
 		}
 	}
 	for op, v := range sc.results() {
-		if strings.HasPrefix(v, "ok:") && (op[0] == 'r' || op[0] == 'u') {
+		if strings.HasPrefix(v, "ok:") && (op[0] == 'r' || op[0] == 'u' || op == "probe" || op == "late" || op == "late2") {
 			f := strings.Split(v[3:], "/")
 			idx := strings.SplitN(op[1:], ".", 2)[0]
+			switch op {
+			case "probe":
+				idx = "99"
+			case "late":
+				idx = "98"
+			case "late2":
+				idx = "1"
+			}
 			if len(f) != 4 || f[0] != idx || f[1] != "2" {
 				bad = "client op " + op + " received " + v
 			}
@@ -823,12 +925,18 @@ func famClose(o *corr.Out, n int) {
 				finish(o, sc)
 				break
 			}
-			stalledObs := sc.obs[len(sc.obs)-1]
-			_ = stalledObs
-			sc.do("flow!1") // the transport lets go of pending I/O
+			// still stalled: if Close has already returned, nothing of the client's manager may be left
 			if ev != "cclose!cc" {
 				sc.do("cclose!cc")
 			}
+			ob0 := sc.do("noop")
+			if !contains(lastPending(ob0), "cc") && len(sc.w.LastObs().ClientCensus) > 0 {
+				o.Oracle("C12:no-goroutine-left", sc.request(), "Conn.Close returned while goroutines of its manager are still running: "+
+					strings.Join(sc.w.LastObs().ClientCensus, " | "))
+			} else {
+				o.OracleOK("C12:no-goroutine-left")
+			}
+			sc.do("flow!1") // the transport lets go of pending I/O
 			ob := sc.do("noop")
 			pend := lastPending(ob)
 			a := sc.w.A.Status()
